@@ -104,14 +104,22 @@ mod logwaker {
 /// like loom::future::block_on, but the waker's clone/wake/drop are logged and its reference
 /// count is checked by the caller
 fn block_on_logged<F: Future>(f: F) -> (F::Output, Arc<Parker>) {
+    block_on_logged_n(f, 1)
+}
+
+/// `polls_before_park` > 1: after a Pending poll the future is polled again with the SAME waker
+/// before the thread parks (a spurious poll, e.g. from a select whose other branch was woken)
+fn block_on_logged_n<F: Future>(f: F, polls_before_park: u32) -> (F::Output, Arc<Parker>) {
     let parker = Parker::new();
     let w = logwaker::waker(&parker);
     let mut cx = Context::from_waker(&w);
     let mut f = std::pin::pin!(f);
-    let out = loop {
-        ev("B:poll");
-        if let Poll::Ready(v) = f.as_mut().poll(&mut cx) {
-            break v;
+    let out = 'outer: loop {
+        for _ in 0..polls_before_park {
+            ev("B:poll");
+            if let Poll::Ready(v) = f.as_mut().poll(&mut cx) {
+                break 'outer v;
+            }
         }
         ev("B:pending->park");
         parker.park();
@@ -357,12 +365,16 @@ fn busy_poll<F: Future>(f: F) -> (F::Output, Arc<Parker>) {
 }
 
 fn join_remote(yields: u32, busy: bool) {
+    join_remote_n(yields, busy, 1)
+}
+
+fn join_remote_n(yields: u32, busy: bool, polls_before_park: u32) {
     reset();
     let exe = Executor::new();
     let handle = exe.spawn(Tracked::new(yields));
     let t = thread::spawn(move || {
         ev("B:await-handle");
-        let (r, parker) = if busy { busy_poll(handle) } else { block_on_logged(handle) };
+        let (r, parker) = if busy { busy_poll(handle) } else { block_on_logged_n(handle, polls_before_park) };
         let ok = matches!(r, Ok(Token(7)));
         ev(format!("B:joined ok={ok}"));
         drop(r);
@@ -496,6 +508,8 @@ pub fn scenarios() -> Vec<Scenario> {
         Scenario { name: "ex_full_queue", property: "C03", about: "two tasks woken from two threads with a cross-thread queue of size 1 (full-queue branch)", run: full_queue, thorough_only: false, heavy: false },
         Scenario { name: "jh_join_remote_y0", property: "C04", about: "handle awaited on another thread while the task completes at its first poll", run: || join_remote(0, false), thorough_only: false, heavy: false },
         Scenario { name: "jh_join_remote_y1", property: "C04", about: "handle awaited on another thread, task yields once", run: || join_remote(1, false), thorough_only: false, heavy: false },
+        Scenario { name: "jh_join_remote_repoll_y0", property: "C04", about: "handle polled twice with the same waker before parking (spurious re-poll) while the task completes at its first poll", run: || join_remote_n(0, false, 2), thorough_only: false, heavy: false },
+        Scenario { name: "jh_join_remote_repoll_y1", property: "C04", about: "same, task yields once", run: || join_remote_n(1, false, 2), thorough_only: false, heavy: false },
         Scenario { name: "jh_join_remote_busy_y1", property: "C04", about: "handle polled in a loop (never sleeping) on another thread, task yields once", run: || join_remote(1, true), thorough_only: false, heavy: false },
         Scenario { name: "jh_drop_remote_y0", property: "C04", about: "handle dropped on another thread racing the first poll", run: || drop_handle_remote(0), thorough_only: false, heavy: false },
         Scenario { name: "jh_drop_remote_y1", property: "C04", about: "handle dropped on another thread, task yields once", run: || drop_handle_remote(1), thorough_only: false, heavy: false },
